@@ -803,10 +803,9 @@ func (g *Group) Range(f func(c Client) bool) {
 }
 
 func kickall(g *Group, message string) {
-	g.Range(func(c Client) bool {
+	for _, c := range g.GetClients(nil) {
 		c.Kick("", nil, message)
-		return true
-	})
+	}
 }
 
 func Shutdown(message string) {
